@@ -509,12 +509,266 @@ def k5_case(rng, name):
     return case
 
 
+# ---------------------------------------------------------------------------------------------------------
+# section `histories`: SEQUENCES of texts on one parser — vnode ids, string ids and thread ids repeat, empty texts (one
+# START|END record holding only NULs behind the header) follow non-empty ones of the same id and vice versa, on the
+# same and on different threads, inside syscall windows and on their own; fed to one TracesParser and, packed into a
+# version-2 dump, through PyKdebugParser.traces
+
+HIST_EXTRA = ('VFS_LOOKUP', 'TRACE_STRING_GLOBAL', 'TRACE_STRING_THREADNAME', 'TRACE_STRING_THREADNAME_PREV')
+HIST_TIDS = [5, 77, 0x1234]
+HIST_PATTERNS = [['A', ''], ['', 'A'], ['A', '', 'B'], ['A', '', ''], ['', '', 'A'], ['A', 'A'], ['A', 'B', ''], ['', ''],
+                 ['A', '', 'A', ''], ['A', 'B', 'A']]
+
+
+def hist_text(rng, kind, used, p_empty=0.35, p_repeat=0.2):
+    r = rng.random()
+    if r < p_empty:
+        return ''
+    if r < p_empty + p_repeat and used:
+        return rng.choice(used)
+    ln = rng.choice([1, 2, 5, 15, 16, 17, 23, 24, 25, 31, 32, 33, 56, 57, 70, 120])
+    k = 'lookup' if kind == 'lookup' else kind
+    body = utf8_text(rng, k, ln) if rng.random() < 0.3 else ascii_text(rng, ln)
+    t = body.replace('"', 'q').replace(',', 'c')
+    used.append(t)
+    return t
+
+
+class History:
+    """Per-thread programs of operations (each a list of records built by the kernel-side encoders); `build` merges the
+    threads, stamps the records and notes for every text which records carry it."""
+
+    def __init__(self, rng):
+        self.rng = rng
+        self.side = Stream(rng)
+        self.prog = {}            # tid -> list of operations; operation = list of (record, tag)
+        self.order = []
+        self.items = []           # dict(kind, tid, text, ident, chunk_ts, win)
+        self.windows = []         # dict(name, tid, start_ts, paths, vnodes)
+
+    def _op(self, tid):
+        if tid not in self.prog:
+            self.prog[tid] = []
+            self.order.append(tid)
+        op = []
+        self.prog[tid].append(op)
+        return op
+
+    def _text(self, op, kind, tid, text, ident, win=None):
+        item = {'kind': kind, 'tid': tid, 'text': text, 'ident': ident, 'chunk_ts': [], 'win': win, 'len': len(text.encode())}
+        self.items.append(item)
+        for r in emit_text(self.side, kind, tid, text, ident):
+            op.append((r, item))
+        return item
+
+    def text(self, kind, tid, text, ident):
+        self._text(self._op(tid), kind, tid, text, ident)
+
+    def window(self, name, tid, lookups, noisy=False):
+        op = self._op(tid)
+        w = {'name': name, 'tid': tid, 'start_ts': None, 'paths': [p for p, _ in lookups], 'vnodes': [v for _, v in lookups]}
+        self.windows.append(w)
+        wi = len(self.windows) - 1
+        op.append((self.side.ev(name, START, tid, PL.good_args(name) or [1, 2, 3, 4]), w))
+        for p, v in lookups:
+            self._text(op, 'lookup', tid, p, v, win=wi)
+            if noisy and self.rng.random() < 0.5:
+                before = len(self.side.recs)
+                noise_same(self.side, self.rng, 'lookup', tid)
+                op.extend((r, None) for r in self.side.recs[before:])
+        op.append((self.side.ev(name, END, tid, [0, 3, 0, 0]), None))
+
+    def build(self, grain):
+        """grain 'op': whole operations of the threads alternate; 'record': single records do."""
+        rng = self.rng
+        queues = {t: [list(op) for op in self.prog[t]] for t in self.order}
+        live = [t for t in self.order if queues[t]]
+        ts, recs = 100, []
+        while live:
+            t = rng.choice(live)
+            n = len(queues[t][0]) if grain == 'op' else 1
+            for _ in range(n):
+                r, tag = queues[t][0].pop(0)
+                ts += 1
+                recs.append(ts.to_bytes(8, 'little') + r[8:])
+                if isinstance(tag, dict) and 'chunk_ts' in tag:
+                    tag['chunk_ts'].append(ts)
+                elif isinstance(tag, dict):
+                    tag['start_ts'] = ts
+            if not queues[t][0]:
+                queues[t].pop(0)
+            if not queues[t]:
+                live.remove(t)
+        return recs
+
+
+def hist_flags(items):
+    """Which orders of the family the history holds: e = an empty text after a non-empty one of the same id, f = a
+    non-empty text after an empty one of the same id, r = a different non-empty text under a repeated id."""
+    seen, fl = {}, set()
+    for it in items:
+        fam = 'threadname' if it['kind'].startswith('threadname') else it['kind']
+        key = (fam, it['tid'] if fam == 'threadname' else it['ident'])
+        for prev in seen.get(key, []):
+            if prev and not it['text']:
+                fl.add('e')
+            if not prev and it['text']:
+                fl.add('f')
+            if prev and it['text'] and prev != it['text']:
+                fl.add('r')
+        seen.setdefault(key, []).append(it['text'])
+    return ''.join(sorted(fl)) or '-'
+
+
+def finish_history(h, rng, route, grain, tag):
+    recs = h.build(grain)
+    case = PL.make_case_from(recs, extra=HIST_EXTRA + ('TRACE_DATA_THREAD_TERMINATE', 'TRACE_STRING_PROC_EXIT', 'TRACE_DATA_EXEC'))
+    case['route'] = route
+    case['meta'] = {'items': h.items, 'windows': h.windows, 'grain': grain, 'tag': tag, 'flags': hist_flags(h.items)}
+    return case
+
+
+def window_decoders():
+    return [n for n in sorted(EXPECT) if n in PL.IDS]
+
+
+def scripted_history(rng, pattern, fam, threads, route):
+    """One id, the texts of `pattern` in a row.  fam: lookup (each on its own) | window-each (each in a syscall of its own)
+    | window-one (all in one syscall) | gstring | threadname | threadname_prev | threadname-mixed."""
+    h = History(rng)
+    used = []
+    names = {'A': hist_text(rng, 'lookup', used, 0, 0), 'B': hist_text(rng, 'lookup', used, 0, 0), '': ''}
+    if names['A'] == names['B']:
+        names['B'] += 'x'
+    ident = rng.choice([0, 1, 7, 0xcafe, (1 << 64) - 1, rng.randrange(1 << 64)])
+    tids = [HIST_TIDS[0]] * len(pattern) if threads == 'same' else [HIST_TIDS[i % 2] for i in range(len(pattern))]
+    if fam.startswith('threadname'):
+        tids = [HIST_TIDS[0]] * len(pattern)          # the id of a thread name IS the thread
+    decs = window_decoders()
+    if fam == 'window-one':
+        many = [n for n in decs if len(EXPECT[n]) > 1]
+        h.window(rng.choice(many), tids[0], [(names[p], ident) for p in pattern], noisy=rng.random() < 0.3)
+    else:
+        for i, (p, tid) in enumerate(zip(pattern, tids)):
+            if fam == 'window-each':
+                h.window(rng.choice(decs), tid, [(names[p], ident)], noisy=rng.random() < 0.3)
+            elif fam == 'threadname-mixed':
+                h.text(rng.choice(['threadname', 'threadname_prev']), tid, names[p], 0)
+            else:
+                h.text(fam, tid, names[p], ident)
+            if threads != 'same' and rng.random() < 0.5:       # something of yet another thread in between
+                h.text(rng.choice(['lookup', 'gstring']), HIST_TIDS[2], hist_text(rng, 'lookup', used, 0.2, 0), ident)
+    return finish_history(h, rng, route, rng.choice(['op', 'record']) if threads != 'same' else 'op',
+                          'scripted/%s/%s' % (fam, threads))
+
+
+def random_history(rng, route):
+    h = History(rng)
+    used = []
+    tids = rng.sample(HIST_TIDS, rng.choice([1, 2, 2, 3]))
+    vnodes = rng.sample([0, 1, 7, 0xcafe, (1 << 64) - 1, rng.randrange(1 << 64)], 2)
+    sids = rng.sample([0, 1, 5, 0xfeedface, rng.randrange(1 << 64)], 2)
+    decs = window_decoders()
+    for _ in range(rng.randrange(3, 9)):
+        tid = rng.choice(tids)
+        r = rng.random()
+        if r < 0.35:
+            k = rng.choice([0, 1, 1, 2, 2, 3, 6])
+            h.window(rng.choice(decs), tid, [(hist_text(rng, 'lookup', used), rng.choice(vnodes)) for _ in range(k)],
+                     noisy=rng.random() < 0.3)
+        elif r < 0.55:
+            h.text('lookup', tid, hist_text(rng, 'lookup', used), rng.choice(vnodes))
+        elif r < 0.8:
+            h.text('gstring', tid, hist_text(rng, 'gstring', used), rng.choice(sids))
+        else:
+            h.text(rng.choice(['threadname', 'threadname_prev']), tid, hist_text(rng, 'threadname', used), 0)
+    return finish_history(h, rng, route, rng.choice(['op', 'op', 'record']), 'random')
+
+
+def history_cases(rng, tier):
+    cases = []
+    fams = ['lookup', 'window-each', 'window-one', 'gstring', 'threadname', 'threadname_prev', 'threadname-mixed']
+    for route in PL.ROUTES:
+        for _ in range(1 if tier == 'quick' else 6):
+            for fam in fams:
+                for pattern in HIST_PATTERNS:
+                    for threads in ('same', 'other'):
+                        if threads == 'other' and (fam.startswith('threadname') or fam == 'window-one'):
+                            continue
+                        cases.append(scripted_history(rng, pattern, fam, threads, route))
+        for _ in range(200 if tier == 'quick' else 4000):
+            cases.append(random_history(rng, route))
+    return cases
+
+
+def history_oracle(case, ans):
+    """Each text trace carries exactly its own text (and vnode / string id); each syscall shows exactly the paths looked up
+    inside its own window — whatever the same parser has read before."""
+    m = case['meta']
+    if not ans.startswith('ok '):
+        return ('history:exception', 'the pipeline raised: %s' % ans)
+    traces, err, tabs = PL.parse_answer(ans)
+    if err != '-':
+        return ('history:exception', 'a history of %d texts raised %s and ended the stream' % (len(m['items']), err))
+    by_first = {}
+    for t in traces:
+        if t['ts']:
+            by_first.setdefault(t['ts'][0], []).append(t)
+    for n, it in enumerate(m['items']):
+        kind = it['kind']
+        where = 'text %d of the history (%s, id %d, thread %d, %d bytes%s)' % (
+            n, kind, it['ident'], it['tid'], it['len'], ', in window %d' % it['win'] if it['win'] is not None else '')
+        mine = [t for ts in it['chunk_ts'] for t in by_first.get(ts, [])]
+        want = expected_text(kind, it['text'], it['ident'])
+        if len(mine) > 1 or (mine and mine[0]['ts'][0] != it['chunk_ts'][0]):
+            return ('history:%s:continuation-trace' % kind, '%s: %d traces begin with its records: %r'
+                    % (where, len(mine), [(t['ts'], t['text']) for t in mine]))
+        if not mine:
+            return ('history:%s:no-trace' % kind, '%s: no trace' % where)
+        if mine[0]['text'] != want:
+            earlier = [(j, x['text']) for j, x in enumerate(m['items'][:n])
+                       if x['text'] and mine[0]['text'] == expected_text(kind, x['text'], it['ident'])]
+            return ('history:%s:wrong-text' % kind, '%s: shown %r, encoded %r%s'
+                    % (where, mine[0]['text'], want, '; that is the text of earlier text %d' % earlier[0][0] if earlier else ''))
+    for wi, w in enumerate(m['windows']):
+        sys_tr = by_first.get(w['start_ts'], [])
+        if len(sys_tr) != 1 or sys_tr[0]['text'] is None:
+            return ('history:window:no-trace', 'window %d (%s): no rendered trace: %r' % (wi, w['name'], sys_tr))
+        sp = D.split_call(sys_tr[0]['text'])
+        if sp is None:
+            return ('history:window:not-call-shaped', sys_tr[0]['text'])
+        for pos, kind in EXPECT.get(w['name'], []):
+            want = '"%s"' % shown(kind, w['paths'])
+            got = sp[1][pos] if pos < len(sp[1]) else None
+            if got != want:
+                return ('history:window:param', 'window %d of the history: %s with the lookups %r shows %s at parameter %d, the '
+                        'looked-up path there is %s; text %r' % (wi, w['name'], w['paths'], got, pos, want, sys_tr[0]['text']))
+    # tables: the last text of an id, when that text is not empty
+    last_gs, last_tn = {}, {}
+    order = sorted(m['items'], key=lambda it: it['chunk_ts'][-1])
+    for it in order:
+        if it['kind'] == 'gstring':
+            last_gs[it['ident']] = it['text']
+        elif it['kind'].startswith('threadname'):
+            last_tn[it['tid']] = it['text']
+    gs = dict(x.split(':') for x in tabs['gs'].split(',')) if tabs['gs'] != '-' else {}
+    tn = dict(x.split(':') for x in tabs['tn'].split(',')) if tabs['tn'] != '-' else {}
+    for ident, text in last_gs.items():
+        if text and gs.get(str(ident)) != core.hs(text):
+            return ('history:gstring:wrong-table', 'global_strings[%d] is not the last text of that id' % ident)
+    for tid, text in last_tn.items():
+        if text and tn.get(str(tid)) != core.hs(text):
+            return ('history:threadname:wrong-table', 'tids_names[%d] is not the last name of that thread' % tid)
+    return None
+
+
 def line(case):
     return PL.line(case)
 
 
 def impl_fn(case):
-    return PL.impl_fn(case)
+    return PL.impl_route_fn(case)
 
 
 def correspondence(rep, rng, tier):
@@ -560,6 +814,27 @@ def correspondence(rep, rng, tier):
              'lookup trace per lookup with exactly its path and vnode id, and the syscall text shows at each path position the '
              'encoded path of the lookup the reference table names' % len(names),
         sample_fn=lambda c: {'decoder': c['meta']['name'], 'lookups': len(c['meta']['paths'])})
+    # 2b. sequences of texts on one parser: repeated ids, empty texts after non-empty ones and vice versa
+    hcases = history_cases(rng, tier)
+    core.run_section(
+        rep, 'histories', hcases, line_fn=line, impl_fn=impl_fn, oracle_fn=history_oracle, skip_fn=PL.unmodelled,
+        nontrivial_fn=lambda c, got: c['meta']['flags'] != '-',
+        kind_fn=lambda c, got: '%s/%s/%s' % (c['route'], c['meta']['tag'].split('/')[0], c['meta']['flags']),
+        rule='histories of 2..15 texts on ONE parser in which vnode ids, string ids and thread ids REPEAT: lookups on their own, '
+             'inside a syscall window of their own and several inside one window (0..6 lookups; decoders drawn from the whole '
+             'reference table), global strings, thread names of both kinds; texts of length 0 (one START|END record holding only '
+             'NULs behind its header) follow non-empty texts of the same id and vice versa, the same text / another text is '
+             'repeated under the same id (scripted orders A·∅, ∅·A, A·∅·B, A·∅·∅, ∅·∅·A, A·A, A·B·∅, ∅·∅, A·∅·A·∅, A·B·A for every '
+             'kind, on one thread and alternating between threads with texts of a third thread in between; random histories on '
+             '1-3 threads with 2 vnode ids / 2 string ids), threads merged operation by operation or record by record, unrelated '
+             'same-thread records inside windows; every history fed to TracesParser.feed_generator (route parser) and, packed '
+             'into a version-2 / version-3 dump, read through PyKdebugParser.traces (routes dump, dump3); Lean `Trace.run` vs the code, oracle: every '
+             'text has exactly one trace, beginning at its first record, with exactly its own text and id; every syscall shows '
+             'at its path positions the paths looked up inside its own window; the string / name tables hold the last non-empty '
+             'text of an id; non-trivial = the history holds an empty text after a non-empty one of the same id (e), the reverse '
+             '(f) or another text under a repeated id (r)',
+        sample_fn=lambda c: {'route': c['route'], 'tag': c['meta']['tag'], 'texts': len(c['meta']['items']),
+                             'windows': len(c['meta']['windows']), 'flags': c['meta']['flags']})
     # 3. finding stream K5: two byte-identical lookups
     knames = [n for n, e in sorted(EXPECT.items()) if any(k == 'second' for _, k in e) and n in PL.IDS]
     kcases = [k5_case(rng, n) for n in knames]
@@ -573,7 +848,8 @@ def correspondence(rep, rng, tier):
     rep.notes.append('reference table: %d decoders with path parameters + %s (result path)' % (len(EXPECT), sorted(TAIL_PATH)))
 
 
-ORACLES = {'reassembly': reassembly_oracle, 'syscall-paths': syscall_oracle, 'identical-lookups': k5_oracle}
+ORACLES = {'reassembly': reassembly_oracle, 'syscall-paths': syscall_oracle, 'identical-lookups': k5_oracle,
+           'histories': history_oracle}
 
 
 def replay(path):
